@@ -324,6 +324,22 @@ impl Monitor for C04 {
             if cls != 0 {
                 s.distinct(mix(sh.board.fingerprint(), sh.gold as u64));
             }
+            // barely mobile movers: every legal step displaces an enemy piece (only pushes available)
+            if cls == 0 {
+                let legal = sh.board.legal(sh.gold, 0, Pend::None);
+                let n = legal.len();
+                if n > 0 && n <= 4 && legal.iter().all(|c| is_step(c) && sh.board.0[code_sq(c)] != 0 && is_gold(sh.board.0[code_sq(c)]) != sh.gold) {
+                    s.count("only_pushes_available_positions");
+                    s.distinct(mix(sh.board.fingerprint(), 404));
+                    if n == 1 {
+                        let c = legal.iter().next().unwrap();
+                        let rabbit = strength(sh.board.0[code_sq(c)]) == 0;
+                        // direction relative to the mover: 0 forward (towards the mover's goal), 2 backward
+                        let rel = if sh.gold { code_dir(c) } else { opp(code_dir(c)) };
+                        s.count(&format!("single_legal_action_is_push_of_{}_{}", if rabbit { "rabbit" } else { "non_rabbit" }, ["forward", "sideways", "backward", "sideways"][rel as usize]));
+                    }
+                }
+            }
             if o.term != exp {
                 let clause = match cls {
                     c if c & 3 != 0 => "goal_precedence",
